@@ -48,7 +48,11 @@
 (* GenChecksCtx = FALSE): the worker loop calls the generator without looking *)
 (* at the context, and the following send is a select between ctx.Done and a  *)
 (* buffered send that may well win - so the repair also checks the context    *)
-(* before every generator call (GenChecksCtx = TRUE).                         *)
+(* before every generator call (GenChecksCtx = TRUE).  A residue of that      *)
+(* repair (GenEofByIs = TRUE, as committed): "unless the generator is just    *)
+(* done" was tested with errors.Is(err, io.EOF), which also holds for a       *)
+(* recovered PANIC whose value is / wraps io.EOF - that abort did not cancel  *)
+(* (MC_wf_gen_asis_paniceof.cfg: AbortBound).                                 *)
 (*                                                                            *)
 (* Deliberate deviations: the consumer of map / gen always drains (a send     *)
 (* never waits for it; GenerateParallel's buffered pipe is folded into the    *)
@@ -69,6 +73,9 @@ CONSTANTS Construct,      \* "pp" | "map" | "gen"
           OptSet,         \* subset of Opts explored
           AbortCancels,   \* BOOLEAN: FALSE = as pinned, TRUE = with the proposed repair
           GenChecksCtx,   \* BOOLEAN: gen only - the worker checks ctx.Err() before calling the generator
+          GenEofByIs,     \* BOOLEAN: gen only - "the generator is just done" is tested with errors.Is(err, io.EOF), which
+                          \* is also true for a recovered panic whose value is / wraps io.EOF (TRUE = as committed in
+                          \* 4f757ff; FALSE = fixes/generate-abort-on-eof-valued-panic.diff: a returned io.EOF only)
           ResolverSame    \* BOOLEAN: TRUE = the resolver reads the collector the handler writes (the code)
 
 None == 0
@@ -196,7 +203,8 @@ WFilter(w) ==
         a    == Classify(kind, o)
         mustAbort == i # None /\ Contract(kind, o).cont = "mustnot"
         \* the repair cancels where "cannot continue" is decided; for the generator io.EOF is its regular end
-        cancels == AbortCancels /\ ~a.cont /\ ~(Construct = "gen" /\ kind = "eof")
+        genDone == Construct = "gen" /\ (kind = "eof" \/ (GenEofByIs /\ "EOF" \in ErrVal(kind)))
+        cancels == AbortCancels /\ ~a.cont /\ ~genDone
     IN  /\ wpc[w] = "filter"
         /\ reported' = IF a.report /\ i # None THEN reported \cup {i} ELSE reported
         /\ waborted' = IF mustAbort THEN waborted \cup {w} ELSE waborted
@@ -305,7 +313,8 @@ Cont(i) == Contract(F[i], o).cont
 \* errors.Is must find (the original error; ErrRecoveredPanic for a panic) ...
 NothingSwallowed == Fin => \A i \in exited : Rep(i) = "must" => (i \in result /\ Need(F[i]) \subseteq ErrVal(F[i]))
 \* ... while io.EOF, ErrIteratorSkip, context errors (unless included) and excluded errors are never reported
-NeverReported == \A i \in reported \cup result : Rep(i) # "never" /\ ErrVal(F[i]) \cap NeverFound(o) = {}
+\* (except as the VALUE of a reported panic: a panic is reported whatever its value)
+NeverReported == \A i \in reported \cup result : Rep(i) # "never" /\ ErrVal(F[i]) \cap (NeverFound(o) \ MayCarry(F[i])) = {}
 \* the result is nil exactly when no reportable failure occurred (failures the property does not classify decide nothing)
 NilIffNoFailure == Fin => /\ (\E i \in exited : Rep(i) = "must") => result # {}
                           /\ (\A i \in exited : Rep(i) = "never") => result = {}
